@@ -158,6 +158,26 @@ fn gen_msg_for(kind: Kind, seed: u64) -> Msg {
             inst.objective = Some(crate::model::msg::f_poly(crate::model::msg::polynomial(&terms)));
             Msg::Instance(inst)
         }
+        // now and then a layer whose encoding is an exact multiple of the tar block size (512 bytes), or one byte
+        // more or less: the padding arithmetic of the archive takes its other branch
+        Kind::Instance if seed % 13 == 5 => {
+            use prost::Message;
+            let mut inst = gen_msg::gen_instance(&mut r);
+            let want = match seed % 3 {
+                0 => 0,
+                1 => 1,
+                _ => 511,
+            };
+            let mut d = inst.description.clone().unwrap_or_default();
+            for k in 0..2000 {
+                d.description = Some("p".repeat(k));
+                inst.description = Some(d.clone());
+                if inst.encoded_len() % 512 == want {
+                    break;
+                }
+            }
+            Msg::Instance(inst)
+        }
         Kind::Instance => Msg::Instance(gen_msg::gen_instance(&mut r)),
         Kind::Parametric => Msg::Parametric(gen_msg::gen_parametric(&mut r)),
         Kind::Solution => Msg::Solution(gen_msg::gen_state(&mut r)),
